@@ -283,6 +283,7 @@ def run(ctx: Ctx):
     # apply: interval masks symmetric
     # ---- S6 every drawn (centre, shift) gives the warp three well-separated knots --------------------------------------
     _warp_knots(ctx, rel)
+    _warp_knots_table(ctx, rel)
     _resample_dtype(ctx, rel)
     plumbing(ctx, "S1")
     return dict(
@@ -303,6 +304,58 @@ def run(ctx: Ctx):
         not_decided=["warp monotone, within half a frame of the ends, finite", "interval masks cover exactly the drawn bands at tensor level", "output shape"],
         assumptions=["torch.rand in [0, 1)", ".long() truncates", "real-arithmetic idealisation of the eps tricks"],
     )
+
+
+def _warp_knots_table(ctx: Ctx, rel: str):
+    """S6 by value: `warp_1d_grid` interpreted over exact values (sa/interp.py + sa/teval.py) up to the spline, which is a leaf that
+    records its control points. For centres inside, at the edges of and beyond the valid frames (also beyond them by a fraction of a
+    frame, as drawn for sequences of length 1 or sub-frame warp limits), shifts of either sign and sequences shorter than the padded
+    extent, the three control points must be: the first frame, the centre clamped to [0, L - 1] (source) / the shifted centre clamped to
+    [0, L - 1] (destination), the last VALID frame L - 1 - each as 2 p + 1 over T minus 1, the outer ones moved out by eps. A centre
+    clamped to L instead reads from the padding that follows the sequence."""
+    import numpy as np
+    from fractions import Fraction as Fr
+    from sa.interp import Interp
+    from sa.inteval import NotEvaluable
+    from sa.teval import frac_array
+    col, pkg = ctx.col, ctx.pkg
+    f = pkg.func(f"{MOD}::warp_1d_grid")
+    names = [p_.name for p_ in f.params]
+    EPS = Fr(1, 10 ** 6)
+    cases = [(Fr(5, 2), Fr(1), 6, 8), (Fr(1, 2), Fr(0), 1, 4), (Fr(7, 10), Fr(-1, 5), 1, 5), (Fr(9), Fr(2), 4, 8), (Fr(3), Fr(-5), 4, 4), (Fr(0), Fr(1, 2), 3, 3), (Fr(17, 5), Fr(0), 4, 6)]
+    bad, n = None, 0
+    try:
+        for c_, s_, L, T in cases:
+            seen = {}
+
+            def leaf(x, env):
+                if isinstance(x, ast.Call):
+                    cn = call_name(x)
+                    if cn == "_get_tensor_eps":
+                        return EPS
+                    if cn == "polyharmonic_spline" and len(x.args) >= 3:
+                        seen["dst"], seen["src"] = (np.asarray(holder["it"].eval(a_, env), dtype=object) for a_ in x.args[:2])
+                        return np.zeros((1, T, 1), dtype=object)
+                return None
+            holder = {}
+            it = Interp(leaf=leaf, tensors=True)
+            holder["it"] = it
+            env = dict(zip(names, (frac_array([c_]), frac_array([s_]), frac_array([L]), T, 1)))
+            kind, got = it.run(f.node, env)
+            n += 1
+            norm = lambda p_: (2 * p_ + 1) / Fr(T) - 1  # noqa: E731
+            cs = max(min(c_, Fr(L - 1)), Fr(0))
+            cd = max(min(cs + s_, Fr(L - 1)), Fr(0))
+            want = {"src": [norm(Fr(0)) - EPS, norm(cs), norm(Fr(L - 1)) + EPS], "dst": [norm(Fr(0)) - EPS, norm(cd), norm(Fr(L - 1)) + EPS]}
+            got_ = {k_: [Fr(v_) for v_ in np.asarray(v, dtype=object).reshape(-1).tolist()] for k_, v in seen.items()} if len(seen) == 2 else None
+            if (kind != "return" or got_ != want) and bad is None:
+                bad = ((c_, s_, L, T), {k_: [str(z_) for z_ in v_] for k_, v_ in (got_ or {}).items()} or f"{kind} {got}", {k_: [str(z_) for z_ in v_] for k_, v_ in want.items()})
+    except (NotEvaluable, TypeError, ValueError):
+        return
+    col.count("warp_knot_table_rows", n)
+    col.ob("G12", "S6", f"{rel}::warp_1d_grid::control-points-table", bad is None,
+           (f"(centre, shift, length, padded extent) = {tuple(str(v_) for v_ in bad[0])}: the spline is handed the control points {bad[1]}; first frame / clamped centre "
+            f"(source: [0, L-1]; destination: shifted, then [0, L-1]) / last valid frame give {bad[2]}") if bad else "", rel, f.line, sample=dict(rows=n))
 
 
 def _warp_knots(ctx: Ctx, rel: str):
